@@ -265,12 +265,41 @@ def run_pipeline(case, driver=None, trace=None):
             def siz(sizes=sizes, st_=st_):
                 st_["s"] += 1
                 return sizes[(st_["s"] - 1) % len(sizes)]
-            gen = DistPacketGenerator(env, f"gen{f}", arr, siz, initial_delay=g["d0"], flow_id=f)
+            kw = {}
+            if case.get("finite") and gaps and gaps[-1] > 0:
+                # the source really ends: its process terminates right after the last scripted packet
+                t_end = g["d0"]
+                for x in gaps:
+                    t_end = t_end + x
+                kw["finish"] = t_end
+            gen = DistPacketGenerator(env, f"gen{f}", arr, siz, initial_delay=g["d0"], flow_id=f, **kw)
             gt = lab.tap(f"gen{f}.out", head)
             gen.out = gt
             gen_taps.append((gt, g))
         if len(case["gens"]) >= 2:
             classes.add("fan-in")
+        monitors = []
+        if case.get("monitor"):
+            # periodic samplers (they are part of the observable trace of a scenario; C03 compares them across split runs)
+            from onl.netdev import PortMonitor
+            from onl.scheduler import Monitor
+            for e in elems:
+                if monitors:
+                    break           # one sampler per scenario
+                gaps = list(case["monitor"])
+                cnt = {"i": 0}
+
+                def dist(gaps=gaps, cnt=cnt):
+                    cnt["i"] += 1
+                    return gaps[(cnt["i"] - 1) % len(gaps)] if cnt["i"] <= 4 * len(gaps) else 1e12
+                if e.type in ("SP", "WFQ", "VC", "DRR", "RR", "WRR"):
+                    monitors.append(("sched", e.name, Monitor(env, e.dev, dist, service_included=bool(len(gaps) % 2))))
+                elif e.type in ("port", "port0", "red"):
+                    pm = PortMonitor(env, e.dev, dist, pkt_in_service_included=bool(len(gaps) % 2))
+                    env.process(pm.run())
+                    monitors.append(("port", e.name, pm))
+            if monitors:
+                classes.add("with monitors")
         for e in elems:
             lab.after_step.append(e.check_step)
         lab.run(until=1e9)
@@ -309,6 +338,12 @@ def run_pipeline(case, driver=None, trace=None):
                     raise Violation("C08.splitter", "copy is the original object or differs in its fields", "C08.splitter/copy")
         if trace is not None:
             trace.extend(lab.global_trace())
+            for kind, name, m in monitors:
+                if kind == "sched":
+                    trace.append(["monitor", name, sorted((k, list(v)) for k, v in m.sizes.items()),
+                                  sorted((k, list(v)) for k, v in m.byte_sizes.items())])
+                else:
+                    trace.append(["monitor", name, list(m.sizes), list(m.sizes_byte)])
         depth = len(case["chain"]) + (1 + max([len(b) for b in case["fanout"]] or [0]) if case["fanout"] else 0)
         classes.add(f"depth {min(depth, 5)}")
         nt = len(case["gens"]) >= 2 and depth >= 2 and ("queued or delayed" in classes or "counted drop" in classes)
@@ -457,6 +492,8 @@ def pipeline_strategy(tier):
         "chain": chain,
         "fanout": st.one_of(st.none(), st.lists(branch, min_size=1, max_size=3)),
         "split": st.booleans(), "by_src": st.booleans(), "inter": st.booleans(),
+        "finite": st.booleans(),
+        "monitor": st.one_of(st.none(), st.lists(st.sampled_from([0.25, 0.5, 1, 0.125 + 1 / 4096, 2]), min_size=1, max_size=4)),
         "seed": st.integers(0, 10 ** 6)})
 
 
